@@ -69,6 +69,7 @@ def run(ctx):
     u = ctx.ast(UNIT)
     ctx.rule("R11.1", "RECOGNISERS: checker and scanner dispatch on the same first characters, and their default: chains test the same token classes in the same order (identical spelling, or agreement on every probe string)")
     ctx.rule("R11.2", "KEYWORDS: true/false/nil/inf/now/immediately map to the same tag in checker and scanner")
+    ctx.rule("R11.4", "SSCANF-ATOMIC: when the scanner decides an optional part by a sscanf with two or more assigning conversions (its %n result is tested afterwards), the converted values are read only under that test - a partial match must not leak into the result")
     ctx.rule("R11.3", "COMMENTS: the four entry loops skip white space and comments introduced by '%' up to the end of the line")
     chk = u.function("rtosc_skip_next_printed_arg")
     scn = u.function("rtosc_scan_arg_val")
@@ -144,3 +145,85 @@ def run(ctx):
                    key="R11.3:%s#%d" % (q, k),
                    what="%s does not skip every run of white space and %%-comments: e.g. on %r it stops at %s instead of %s" % (q, bad[0]["text"] if bad else "", bad[0]["stops_at"] if bad else "", bad[0]["expected"] if bad else ""))
     ctx.require(nruns >= 5, "R11.3: only %d separator-skipping sites found" % nruns)
+
+    # ---- R11.4
+    n4 = 0
+    for x in A.calls_in(u.body(scn), "sscanf"):
+        args = A.kids(x)[1:]
+        fmt = A.string_literal(args[1]) if len(args) > 1 else None
+        if fmt is None or not fmt.endswith("%n"):
+            continue
+        convs = re.findall(r'%(\*?)(\d*)(?:l|ll|h|hh|j|z)?([diouxXfFeEgGaAcs]|\[[^\]]*\])', fmt[:-2])
+        assigning = [c for c in convs if c[0] != "*"]
+        if len(assigning) < 2:
+            continue
+        targets = args[2:2 + len(assigning)]
+        nvar = A.strip_casts(args[2 + len(assigning)]) if len(args) > 2 + len(assigning) else None
+        nid = None
+        if nvar is not None and nvar.get("kind") == "UnaryOperator" and nvar.get("opcode") == "&":
+            nid = A.ref_id(A.kids(nvar)[0])
+        # is the %n result tested after the call (deciding sscanf)?
+        parent = None
+        stmt = x
+        for p_ in u.ancestors(x):
+            if p_.get("kind") == "CompoundStmt":
+                parent = p_
+                break
+            stmt = p_
+        sibs = A.kids(parent)
+        after = sibs[sibs.index(stmt) + 1:] if stmt in sibs else []
+        tests = []
+        for s_ in after:
+            if s_.get("kind") == "IfStmt" and A.ref_id(A.kids(s_)[0]) == nid:
+                tests.append(s_)
+                break
+            # stop at the next assignment of the %n variable
+            if any(y.get("kind") == "BinaryOperator" and y.get("opcode") == "=" and A.ref_id(A.kids(y)[0]) == nid for y in A.walk(s_)):
+                break
+        if not tests:
+            continue
+        n4 += 1
+        guard = tests[0]
+        leaks = []
+        for t in targets:
+            tt = A.strip_casts(t)
+            if not (tt.get("kind") == "UnaryOperator" and tt.get("opcode") == "&"):
+                leaks.append("target `%s` is not a plain variable" % A.src(t))
+                continue
+            lv = A.strip_casts(A.kids(tt)[0])
+            base = lv
+            while base.get("kind") in ("MemberExpr", "ArraySubscriptExpr"):
+                base = A.strip_casts(A.kids(base)[0])
+            bid = base.get("referencedDecl", {}).get("id") if base.get("kind") == "DeclRefExpr" else None
+            text = re.sub(r'\s+', '', A.src(lv))
+            for s_ in after:
+                for y in A.walk(s_):
+                    if y.get("kind") == "DeclRefExpr" and y["referencedDecl"]["id"] == bid:
+                        # a read of the whole base object or of this very member
+                        par = u.parent.get(y.get("id"))
+                        whole = True
+                        ytext = text
+                        if lv.get("kind") == "MemberExpr":
+                            whole = not (par is not None and par.get("kind") == "MemberExpr")
+                            ytext = re.sub(r'\s+', '', A.src(par)) if not whole else None
+                        if (whole or ytext == text) and not _inside(A.kids(guard)[1], y):
+                            # assignments (re-initialisation) do not count as reads
+                            asg = u.parent.get((par if not whole and par is not None else y).get("id"))
+                            if asg is not None and asg.get("kind") == "BinaryOperator" and asg.get("opcode") == "=" and _inside(A.kids(asg)[0], y):
+                                continue
+                            leaks.append("`%s` read at %s outside `if(%s)`" % (text, A.where(y), A.src(A.kids(guard)[0])))
+                            break
+                if leaks and leaks[-1].startswith("`" + text):
+                    break
+        ctx.ob("R11.4", "sscanf \"%s\"" % fmt, not leaks, site=A.where(x), detail={"format": fmt, "assigning_conversions": len(assigning), "leaks": leaks[:4]},
+               key="R11.4:sscanf:%s" % fmt,
+               what="sscanf(\"%s\") decides an optional part but its partially converted values are used anyway: %s" % (fmt, leaks[:2]))
+    ctx.require(n4 >= 1, "R11.4: no deciding multi-conversion sscanf found in rtosc_scan_arg_val")
+
+
+def _inside(root, node):
+    nid = node.get("id")
+    for x in A.walk(root):
+        if x.get("id") == nid:
+            return True
+    return False
